@@ -257,6 +257,17 @@ class LockProxy:
     def acquire(self, blocking: bool = True, timeout: float = -1) -> bool:
         t = Events.tid()
         s = self.sched
+        if not blocking:
+            # a non-blocking attempt stays non-blocking (the code decides what a refused thread does)
+            ok = self.real.acquire(False)
+            if not ok:
+                self.contended += 1
+                if self.log and t >= 0:
+                    Events.log.append([t, 'tryfail', True])
+                return False
+            if self.log and t >= 0:
+                Events.log.append([t, 'acquire', True])
+            return True
         if s is not None and t >= 0:
             spins = 0
             while not self.real.acquire(False):
@@ -568,6 +579,71 @@ def forced_built_window(ctx: Ctx, base: Baseline) -> None:
     ctx.case(case, fired['n'] > 0, tag='forced:B/after-built-flag' + ('' if fired['n'] else ' (window not reached)'))
 
 
+def forced_build_body_windows(ctx: Ctx, base: Baseline, docs: list, max_windows: int) -> None:
+    """Thread 0 calls build() on an unbuilt schema and is suspended at a statement boundary of build() (EVERY line
+    event of the build() frame of this schema's maps, from the first `if self._built` to the last statement; every
+    `stride`-th when there are more than `max_windows`); thread 1 then calls build(), takes the fingerprint of the
+    built state the moment build() returns to it and validates documents, as far as it can run (it is switched out
+    when it has to wait for the lock); thread 0 resumes.  Whatever the shape of the locking code: build() must return
+    to a thread only when the schema is in the state of a sequential build, and every call = its single-threaded
+    result."""
+    from xmlschema.validators.xsd_globals import XsdGlobals
+    code = XsdGlobals.build.__code__
+    # number of line events of the build() frame in a build that nobody disturbs
+    probe = fresh(base.xsd, False)
+    n_lines = [0]
+
+    def count_tracer(frame, event, arg):
+        if event == 'call' and frame.f_code is code and frame.f_locals.get('self') is probe.maps:
+            def local(frame, event, arg):
+                if event == 'line':
+                    n_lines[0] += 1
+                return local
+            return local
+        return None
+    sys.settrace(count_tracer)
+    try:
+        probe.build()
+    finally:
+        sys.settrace(None)
+    total = n_lines[0]
+    stride = 1 if total <= max_windows else (total + max_windows - 1) // max_windows
+    ctx.count('forced:build-body:statement boundaries', total)
+    for j in range(1, total + 1, stride):
+        state = {'n': 0, 'fired': False, 'maps': None}
+
+        def factory(sched: Sched, t: int, state=state, j=j) -> Callable:
+            def local(frame, event, arg):
+                if event == 'line' and t == 0 and not state['fired']:
+                    state['n'] += 1
+                    if state['n'] == j:
+                        state['fired'] = True
+                        sched.switch(0, forced=True, to=1)
+                return local
+
+            def tracer(frame, event, arg):
+                if event == 'call' and t == 0 and not state['fired'] and frame.f_code is code \
+                        and frame.f_locals.get('self') is state['maps']:
+                    return local
+                return None
+            return tracer
+        sched = Sched(2, random.Random(j), {'first': 0})
+        case = {'forced': 'build-body', 'line_event': j, 'of': total, 'threads': 2,
+                'schema': 'pool' if base.xsd == POOL_XSD else 'other', 'docs': docs}
+        full = dict(case, xsd=base.xsd)
+        jobs = [[('iter_errors', d) for d in docs[:2]], [('iter_errors', d) for d in docs] + [('decode', docs[0])]]
+        # `experiment` creates the schema: the tracer learns its maps through Events.target
+
+        def factory2(sched: Sched, t: int, factory=factory, state=state) -> Callable:
+            state['maps'] = Events.target
+            return factory(sched, t)
+        batch: list = []
+        experiment(ctx, batch, base, full, jobs, sched, True, factory2)
+        ctx.case(case, state['fired'], tag='forced:build-body' + ('' if state['fired'] else ' (window not reached)'))
+        if len(ctx.failures) > 20:
+            break
+
+
 def forced_window(ctx: Ctx, base: Baseline, drv: Optional[Driver], window: str) -> None:
     """Thread 0 is paused inside the xsi:type widening; thread 1 validates the same document to the end;
     then thread 0 resumes.  window = 'F1' (after update_elements returned, i.e. before xsi_types.add;
@@ -805,9 +881,11 @@ def line_build_experiment(ctx: Ctx, lbatch: list, base: Baseline, docs: list, n:
         Events.target = None
     judge(ctx, full, base, schema, jobs, results, hung, True)
     facts = build_facts(n)
-    if not hung and not sched.abandoned:
-        if facts['runs'] != 1:
-            ctx.failure('the build body ran %d times (must be exactly once)' % facts['runs'], full, facts)
+    if not hung and not sched.abandoned and facts['runs'] != 1:
+        ctx.failure('the build body ran %d times (must be exactly once)' % facts['runs'], full, facts)
+    if not hung and not sched.abandoned and hooks.build.ok and body >= 0:
+        # (when build() does not have the modelled shape the replay is meaningless — that is reported once as a
+        #  mismatch by run(); the RESULTS above are judged regardless)
         # a thread may call build() again (validation entry points do): every call is its own model thread
         cur = {t: t for t in range(n)}
         count = {t: 0 for t in range(n)}
@@ -1767,6 +1845,7 @@ def run(ctx: Ctx, driver_ok: bool) -> None:
         forced_window(ctx, base, drv, 'F1')
         forced_window(ctx, base, drv, 'F2')
         forced_built_window(ctx, base)
+        forced_build_body_windows(ctx, base, [POOL_DOCS[-2], POOL_DOCS[1], POOL_DOCS[0]], ctx.pick(80, 400))
         variant = L.code_variant()
         ctx.extra['code_variant'] = variant
         forced_f3(ctx, drv, variant)
@@ -1938,6 +2017,9 @@ def replay(ctx: Ctx, obj: dict) -> int:
     elif case.get('forced') == 'scratch-lax':
         forced_scratch_lax(ctx, drv)
         print(ctx.extra.get('scratch_lax_race'))
+    elif case.get('forced') == 'build-body':
+        base = Baseline(case['xsd'])
+        forced_build_body_windows(ctx, base, case['docs'], 10 ** 9)
     elif case.get('forced'):
         base = Baseline(POOL_XSD)
         if case['forced'] == 'B':
